@@ -32,20 +32,36 @@ type ssaEvent struct {
 	Res  string     `json:"res"`
 	Msg  string     `json:"msg"`
 	Raw  string     `json:"raw"`
+	// what the hook at the top of the reader's loop reported, one entry per scanned line
+	Hooks []ssaHook `json:"hooks"`
+}
+
+type ssaHook struct {
+	Sec  string `json:"sec"`
+	NFmt int    `json:"nfmt"`
+	NS   int    `json:"ns"`
+	NE   int    `json:"ne"`
 }
 
 func ssaRead(n int, c ssaCase) ssaEvent {
 	p := ssax.PoolFor(n)
 	c.G.Norm()
 	c.D.Norm()
-	ev := ssaEvent{N: n, Dir: "read", G: c.G, D: c.D}
+	ev := ssaEvent{N: n, Dir: "read", G: c.G, D: c.D, Hooks: []ssaHook{}}
 	ev.Post.Norm()
 	raw := ssax.Concretise(c.D, p, n)
 	dumpDoc("ssa", n, raw)
 	ev.Raw = string(raw)
 	var s *astisub.Subtitles
 	var err error
-	ev.Res, ev.Msg = run.Guard(10*time.Second, func() { s, err = astisub.ReadFromSSA(bytes.NewReader(raw)) })
+	rd := bytes.NewReader(raw)
+	astisub.VerifHook = func(site string, key interface{}, kv ...interface{}) {
+		if site == "ssa.line" && key == interface{}(rd) && len(kv) == 4 {
+			ev.Hooks = append(ev.Hooks, ssaHook{kv[0].(string), kv[1].(int), kv[2].(int), kv[3].(int)})
+		}
+	}
+	ev.Res, ev.Msg = run.Guard(10*time.Second, func() { s, err = astisub.ReadFromSSA(rd) })
+	astisub.VerifHook = nil
 	if ev.Res == "ok" && err != nil {
 		ev.Res, ev.Msg = "err", err.Error()
 	}
@@ -58,7 +74,7 @@ func ssaRead(n int, c ssaCase) ssaEvent {
 func ssaWrite(n int, g ssax.Truth) ssaEvent {
 	p := ssax.PoolFor(n)
 	g.Norm()
-	ev := ssaEvent{N: n, Dir: "write", G: g}
+	ev := ssaEvent{N: n, Dir: "write", G: g, Hooks: []ssaHook{}}
 	ev.D.Norm()
 	ev.Post.Norm()
 	s := ssax.Build(g, p)
